@@ -218,3 +218,26 @@ _param_map_contract(FBASE, "Constructor.param_map", lambda x, v: f"{x} == {v}", 
                     False, ["C09"])
 _param_map_contract(FD, "DisjointUnion.param_map", lambda x, v: f"(not is_none({x}) and val({x}) == {v})",
                     "is_none(new_params[p])", "result[p] == 0", True, ["C09"])
+
+# ------------------------------------------------------------------ C07: sub-object enumeration of unions
+ObjList = List(Opt(CombObj))
+provider("objects", args=[Int], arg_names=["m"], returns=Opaque("Any"))
+_NONE_LIST = "(len({l}) == 1 and is_none({l}[0]))"
+
+contract(FD, "DisjointUnion.get_sub_objects", props=["C07"], lenient=True,
+         aliases={"Any": Opaque("Any"), "CombObj": CombObj},
+         params={"self": Obj("DisjointUnion"), "subobjs": Seq(Fun("objects")), "n": Int},
+         returns=Seq(Tup(Opaque("Any"), Seq(ObjList))), locals={"res": List(ObjList)},
+         requires=["self.number_of_children == len(subobjs)", "forall(lambda j: implies(0 <= j and j < len(subobjs), subobjs[j] == j))"],
+         yields=["len(it[1]) == self.number_of_children",
+                 # only the component of the child being enumerated carries objects; every other one is [None]
+                 "forall(lambda j: implies(0 <= j and j < len(it[1]) and j != i, " + _NONE_LIST.format(l="it[1][j]") + "))"],
+         provider_requires={"objects": ["idx == i", "m == n"]},
+         loops={0: dict(invariant=["len(res) == self.number_of_children",
+                                   "forall(lambda j: implies(0 <= j and j < len(res), " + _NONE_LIST.format(l="res[j]") + "))"],
+                        modifies=["*res", "all:List(Opt(CombObj))"]),
+                1: dict(invariant=["len(res) == self.number_of_children",
+                                   "forall(lambda j: implies(0 <= j and j < len(res) and j != i, " + _NONE_LIST.format(l="res[j]") + "))"],
+                        modifies=["*res"])},
+         modifies=["all:List(List(Opt(CombObj)))", "all:List(Opt(CombObj))"],
+         notes="each yielded tuple puts the objects of exactly one child at that child's position")
